@@ -5,7 +5,6 @@ import (
 	"encoding/json"
 	"fmt"
 	"os"
-	"reflect"
 	"strings"
 	"sync"
 	"testing"
@@ -225,8 +224,8 @@ func kgRun(c *harness.C, backend string, t int, variant string, r *explore.Recor
 					// the peers send as soon as they see the party's "initialised" flag (read while
 					// the system is quiescent): nothing arrives before Init has set it
 					sched.WaitUntil(func() bool {
-						f, ok := dump.Field(x, "init")
-						return !ok || f.Kind() != reflect.Bool || f.Bool()
+						v, ok := dump.BoolNoRace(x, "init")
+						return !ok || v
 					})
 				} else if variant != "early" {
 					<-inited
@@ -267,8 +266,8 @@ func liveRun(c *harness.C, backend string, r *explore.Recorder) *kgOut {
 		defer sc.Close()
 		sc.Quantum, sc.Horizon = 3*time.Second, 3
 		inited1 := func() bool {
-			f, ok := dump.Field(x1, "init")
-			return !ok || f.Kind() != reflect.Bool || f.Bool()
+			v, ok := dump.BoolNoRace(x1, "init")
+			return !ok || v
 		}
 		x2.Init(parties, 2, func(msg []byte, bc bool, to uint16) {
 			sched.WaitUntil(inited1)
